@@ -43,6 +43,7 @@ ASSUMPTIONS = [
     "index names are abstract values; letter + str(counter) is an injective function generated_name(letter, counter) of both arguments (string concatenation of one letter and a decimal number); index_space(name) is a function of the name that maps generated names to the space of their letter (Indices.base, read from the source) - names that index_space rejects are outside the precondition",
     "Indices._new_symbol(name, space, spin) returns an Index that carries that name, space and spin (sympy Dummy construction, not under contract)",
     "the nested dictionaries self._symbols / _generic_indices / _counter have exactly the nine (space, spin) slots __init__ creates",
+    "get_lowest_avail_indices: pigeonhole - a list of pairwise different names contains at least len(list) - len(used) names that are not in `used` (paper); the pool is an abstract sequence of whole generations; list(base) / the generation comprehension are executed on the real base string",
     "return values: every symbol appended to the result of get_indices is shown to be the registered one for its name; the grouping of the result dictionary by (space, spin) is not specified (bounded stand-in registry.identity_and_freshness)",
 ]
 
@@ -626,3 +627,111 @@ class GetGenericIndices(Contract):
                 ("they-are-registered-in-the-requested-slot-afterwards",
                  z3.ForAll([i], z3.Implies(z3.And(0 <= i, i < n), s.dom[arr[i]])))]
         return out
+
+
+# --- get_lowest_avail_indices ---------------------------------------------------------------------------
+# The pool is the canonical sequence  base, base+"1", base+"2", ...  (names in the order the
+# documentation promises) cut after whole generations; it is long enough to hold n names that are not
+# in `used` (pigeonhole: its names are pairwise different, so at most len(used) of them are excluded),
+# and the result is the first n names of the pool that are not in `used`.
+LK = "adcgen.indices:get_lowest_avail_indices"
+
+
+def _canon_install(vc):
+    from pyvc.builtins import BUILTINS
+    C.STRUCT_LEN["CanonPool"] = lambda ip, o: Sym(o.f["width"] * o.f["gens"])
+    C.STRUCT_LEN["UsedNames"] = lambda ip, o: Sym(o.f["n"])
+
+    def extend(ip, o, a, k):
+        v = a[0]
+        items = v.f["items"] if isinstance(v, Struct) and v.cls == "GuardedList" else None
+        letters = o.f["letters"]
+        ok = items is not None and len(items) == len(letters) and all(g is True for g, _x in items)
+        suffix = ip.vc.ghost.get("_suffix_term")
+        same = ok and all(isinstance(x, Sym) and z3.eq(z3.simplify(x.t), z3.simplify(NAME(z3.IntVal(l), suffix)))
+                          for (_g, x), l in zip(items, letters))
+        ip.vc.check("extend#the-next-generation-is-every-base-letter-in-order-with-the-suffix-appended", same)
+        ip.vc.check("extend#generations-are-appended-in-order-1-2-3", o.f["gens"] == suffix)
+        o.f["gens"] = o.f["gens"] + 1
+        return None
+    C.STRUCT_METHODS[("CanonPool", "extend")] = extend
+
+    def str_model(ip, args, kwargs):
+        from pyvc.builtins import b_str
+        if args and isinstance(args[0], Sym) and z3.is_int(args[0].t):
+            ip.vc.ghost["_suffix_term"] = args[0].t
+            return Struct("DecimalOf", n=args[0].t)
+        return b_str(ip, args, kwargs)
+    vc.ip.builtins = dict(vc.ip.builtins, str=PyFunc(str_model, "str"))
+
+    def concat(ip, opn, a, b):
+        if opn == "Add" and isinstance(a, str) and len(a) == 1 and isinstance(b, Struct) and b.cls == "DecimalOf":
+            return Sym(NAME(z3.IntVal(ord(a)), b.f["n"]), "IndexName")
+        raise Unsupported("arithmetic on str(counter)")
+    C.STRUCT_ARITH["DecimalOf"] = concat
+
+    def slice_(ip, o, idx):
+        if isinstance(idx, tuple) and len(idx) == 4 and idx[0] == "slice" and idx[1] is None and idx[3] is None:
+            return Struct("FirstOf", src=o, n=idx[2])
+        raise Unsupported("subscript of the filtered pool other than [:n]")
+    C.STRUCT_SUBSCRIPT["FilteredPool"] = slice_
+
+
+class _PoolLoop(LoopContract):
+    """while len(idx) < required: idx.extend(s + str(suffix) for s in base); suffix += 1"""
+    modifies = ("idx", "suffix")
+
+    def havoc(self, vc, frame, k, seq):
+        letters = vc.ghost["_letters"]
+        g = vc.fresh_int("generations")
+        frame["idx"] = Struct("CanonPool", letters=letters, width=len(letters), gens=g)
+        frame["suffix"] = Sym(g)
+
+    def invariant(self, vc, frame, k, seq):
+        letters = vc.ghost["_letters"]
+        idx = frame["idx"]
+        if isinstance(idx, PList):
+            # list(base): generation 0, the base letters themselves
+            ok = [x for x in idx.items] == [chr(l) for l in letters]
+            frame["idx"] = idx = Struct("CanonPool", letters=letters, width=len(letters), gens=z3.IntVal(1))
+            first = [("the-pool-starts-with-the-base-letters-in-order", ok)]
+        else:
+            first = []
+        return first + [("the-pool-consists-of-whole-generations-and-suffix-is-the-next-one",
+                         z3.And(idx.f["gens"] >= 1, term(frame["suffix"]) == idx.f["gens"]))]
+
+
+@register
+class GetLowestAvailIndices(Contract):
+    key = LK
+    props = ["C08"]
+    loops = {0: _PoolLoop()}
+    comprehensions = {"s + str(suffix) for s in base": lambda ip, frame, node: ip.guarded_comp(node, frame),
+                      "s for s in idx if s not in used":
+                      lambda ip, frame, node: Struct("FilteredPool", src=frame["idx"], excl=frame["used"])}
+
+    def setup(self, vc):
+        install(vc)
+        _canon_install(vc)
+        space = SPACES[vc.choose(3, "space")]
+        letters = base_letters(vc.ip)[space]
+        vc.ghost["_letters"] = letters
+        n, m = vc.fresh_int("n"), vc.fresh_int("n_used")
+        vc.assume(z3.And(n >= 0, m >= 0))
+        used = Struct("UsedNames", n=m)
+        vc.ghost["_args"] = (n, m, used)
+        return {"n": Sym(n), "used": used, "space": space}
+
+    def post(self, vc, a, result):
+        n, m, used = vc.ghost["_args"]
+        ok = isinstance(result, Struct) and result.cls == "FirstOf" and isinstance(result.f["src"], Struct) \
+            and result.f["src"].cls == "FilteredPool"
+        if not ok:
+            return [("the-first-n-names-of-the-pool-that-are-not-in-use", False)]
+        flt = result.f["src"]
+        pool = flt.f["src"]
+        okp = isinstance(pool, Struct) and pool.cls == "CanonPool"
+        return [("the-first-n-names-of-the-pool-that-are-not-in-use",
+                 z3.And(term(result.f["n"]) == n, z3.BoolVal(flt.f["excl"] is used), z3.BoolVal(okp))),
+                ("the-pool-holds-at-least-n-plus-len(used)-names-so-that-n-unused-ones-exist",
+                 (pool.f["width"] * pool.f["gens"] >= n + m) if okp else False)]
